@@ -270,6 +270,19 @@ fn valid_soup(rng: &mut Rng) -> String {
     s
 }
 
+/// input that ends inside a comment or directive; the tail mixes characters on which Delphi's
+/// blank set (up to U+0020, U+3000) and Unicode White_Space disagree: the token must end at the
+/// last character that is not a Delphi blank
+fn unterminated_tail(rng: &mut Rng) -> String {
+    let mut s = if rng.bool() { valid_soup(rng) } else { String::new() };
+    s.push_str(rng.pick_str(&["{", "(*", "{$X", "(*$X", "{$IFDEF A", "{ todo", "(* note", "{$R"]));
+    let n = rng.range(1, 5);
+    for _ in 0..n {
+        s.push_str(rng.pick_str(&["\u{a0}", "\u{2028}", "\u{85}", "\u{1a}", "\0", "\u{3000}", " ", "\t", "\n", "\r\n", "x", "\u{2003}", "\u{feff}", "\u{1f}", "\u{200b}", "é"]));
+    }
+    s
+}
+
 impl Prop for C13 {
     fn id(&self) -> &'static str {
         "C13"
@@ -385,8 +398,9 @@ impl Prop for C13 {
             }
         } else {
             for k in 0..30 {
-                let (input, kind) = match rng.below(4) {
+                let (input, kind) = match rng.below(5) {
                     0 => (valid_soup(&mut rng), "valid-soup"),
+                    4 => (unterminated_tail(&mut rng), "unterminated-tail"),
                     1 => {
                         let w = common::well_formed(ctx, &mut rng, 20);
                         (w.text, "well-formed")
@@ -395,7 +409,7 @@ impl Prop for C13 {
                 };
                 out.count(&format!("gen.{kind}"));
                 if let Some(toks) = lex_both(&mut out, &input) {
-                    if kind == "valid-soup" || kind == "well-formed" {
+                    if kind == "valid-soup" || kind == "well-formed" || kind == "unterminated-tail" {
                         compare_with_refscan(&mut out, &input, &toks);
                     }
                     if toks.len() >= 5 {
